@@ -931,6 +931,16 @@ def set_attr(ex, st, o, attr, val, node=None):
     v = st.get(o)
     if isinstance(v, Obj):
         return obj_setattr(ex, st, o, v, attr, val, node)
+    if isinstance(v, Tab) and attr == "columns":
+        # df.columns = [names]: positional renaming of all columns
+        names = st.get(val)
+        names = [st.get(x) for x in (names.items if isinstance(names, ListV) else names)]
+        if len(names) != len(v.cols) or not all(isinstance(x, str) for x in names) or len(set(names)) != len(names):
+            raise Unsupported("df.columns = <not a list of as many distinct names>")
+        olds = list(v.cols)
+        st.put(o, Tab(v.n, {nn: v.cols[oo] for nn, oo in zip(names, olds)}, v.idx,
+                      {nn: v.elts.get(oo) for nn, oo in zip(names, olds)}))
+        return [st]
     if isinstance(v, Tab):
         # df.col = series
         return tab_setitem(ex, st, o, v, attr, val, node)
